@@ -50,3 +50,17 @@ package parser
 // the runes of a class: a new slice, nothing else changes
 //@ func (r RuneClass) Runes() []rune
 //@   assumed
+
+// C14: a \x escape denotes a code point. The value handed up the chain is a rune in [0, 0x10FFFF]: the mappers index
+// tables with it and iterate up to it (a wrapped negative value panics a bracket group, a bound near MaxInt32 never
+// terminates a range loop).
+//@ func toUnicodeChar(r comb.Result) (comb.Result, bool)
+//@   assumes @L-COMB typeis(r.Val, "comb.List") && len(unbox(r.Val, "comb.List")) >= 5 && len(unbox(r.Val, "comb.List")) <= 9
+//@   assumes @L-COMB forall k int :: {unbox(r.Val, "comb.List")[k]} 1 <= k && k < len(unbox(r.Val, "comb.List")) && typeis(unbox(r.Val, "comb.List")[k].Val, "int") ==> 0 <= unbox(unbox(r.Val, "comb.List")[k].Val, "int") && unbox(unbox(r.Val, "comb.List")[k].Val, "int") <= 15
+//@   loop[0] invariant 0 <= c && c < pow16(__i0)
+//@   ensures @code-point result1 ==> typeis(result0.Val, "rune") && 0 <= unbox(result0.Val, "rune") && unbox(result0.Val, "rune") <= 1114111
+//@ def func pow16(k int) int = k <= 0 ? 1 : (k == 1 ? 16 : (k == 2 ? 256 : (k == 3 ? 4096 : (k == 4 ? 65536 : (k == 5 ? 1048576 : (k == 6 ? 16777216 : (k == 7 ? 268435456 : 4294967296)))))))
+//@ func toASCIIChar(r comb.Result) (comb.Result, bool)
+//@   assumes @L-COMB typeis(r.Val, "comb.List") && len(unbox(r.Val, "comb.List")) == 3 && typeis(unbox(r.Val, "comb.List")[1].Val, "int") && typeis(unbox(r.Val, "comb.List")[2].Val, "int")
+//@   assumes @L-COMB 0 <= unbox(unbox(r.Val, "comb.List")[1].Val, "int") && unbox(unbox(r.Val, "comb.List")[1].Val, "int") <= 15 && 0 <= unbox(unbox(r.Val, "comb.List")[2].Val, "int") && unbox(unbox(r.Val, "comb.List")[2].Val, "int") <= 15
+//@   ensures @code-point result1 && typeis(result0.Val, "rune") && 0 <= unbox(result0.Val, "rune") && unbox(result0.Val, "rune") <= 255
